@@ -12,7 +12,9 @@ How a pandas operand pair is read as tables (done by the harness, `harness/c13.p
 * a `Series` object is a *record* (no level, one row, payload = all its entries) when the parameter is a
   scalar / array, and for a pandas parameter iff its index is one unnamed level;
 * every other object / parameter is a table whose levels are its index levels; an unnamed level gets the
-  fresh name `anon side position` (it can never be shared);
+  fresh name `anon side position` (it can never be shared - not even when both operands carry the identical
+  partly unnamed MultiIndex: they are then joined on the named levels and cross joined on the unnamed ones);
+  level names that compare equal in Python (`1`, `True`, `1.0`) are one name;
 * a scalar is the table with no level and one row; an array is positional (see `prmTbl`).
 
 Semantics (the code as it is after the repairs, repo commits b3ce47d (finding F-6, align-equal-values) and
